@@ -38,7 +38,9 @@ def fwd_validated_multi(D):
 def make(args):
     seed, bad = args
     rng = random.Random(seed)
-    if seed % 3 == 1 and not bad:
+    if seed % 5 == 2 and not bad:
+        d = coregen.ring_design(rng)
+    elif seed % 3 == 1 and not bad:
         # argument-forwarding family: methods pass (a function of) their own argument on to callees, some of which
         # validate their arguments; several callers per method
         d = coregen.Gen(rng, p_rdyrun=0.15, p_rel=0.3, p_wit=0.0, p_fsm=0.05, p_nested=0.1, p_fwdarg=0.7, p_validate=0.6,
@@ -62,6 +64,39 @@ def make(args):
                 break
             core._shrink(d, rng, "")   # drop a call site / relation and retry
     return out
+
+
+def make_cond(seed):
+    """One design that uses condition() (vlib/condgen.py; validated callees, conditional call chains)."""
+    from vlib import condgen
+    rng = random.Random(seed)
+    d = condgen.gen_condition(rng, validate=True)
+    cond_hop = any(h["kind"] != "plain" for h in d.get("chain", []))
+    val_branch = any(d["targets"][t - 1].get("validate") for br in d["branches"] for t in br["calls"])
+    flags = {"conditionally_called_parent": cond_hop, "branch_callee_validates": val_branch}
+    try:
+        cyc, msg = condgen.build_condition(d, netlist_only=True)
+        return {"design": d, "raised": False, "cycle": bool(cyc), "msg": msg, "seed": seed, **flags}
+    except Exception as ex:  # noqa: BLE001
+        return {"design": d, "raised": True, "cycle": False, "msg": f"{type(ex).__name__}: {str(ex)[:300]}", "seed": seed, **flags}
+
+
+def run_cond(rep, n):
+    with mp.Pool(NPROCS) as pool:
+        cases = pool.map(make_cond, [rep.seed * 100019 + i for i in range(n)], chunksize=4)
+    r, acc, rej, dev = judge.judge("CondDepsTrace", [{"design": c["design"], "raised": c["raised"], "cycle": c["cycle"]} for c in cases])
+    for x in rej:
+        c = cases[x["tid"] - 1]
+        rep.violation({"component": "condition", "cfg": {"seed": c["seed"], "conditionally_called_parent": c["conditionally_called_parent"],
+                                                         "branch_callee_validates": c["branch_callee_validates"]},
+                       "clauses": sorted(x["clauses"]), "what": c["msg"], "design": c["design"]})
+    cov = rep.coverage
+    cov["condition_designs"] = len(cases)
+    cov["condition_designs_elaborated"] = sum(1 for c in cases if not c["raised"])
+    cov["condition_designs_with_validated_branch_callee"] = sum(1 for c in cases if c["branch_callee_validates"])
+    cov["condition_designs_with_conditional_call_chain"] = sum(1 for c in cases if c["conditionally_called_parent"])
+    cov["condition_model_edges"] = sum(a.get("edges", 0) for a in acc)
+    return len(cases), r
 
 
 def run(rep):
@@ -90,11 +125,12 @@ def run(rep):
     cov["negative_controls_built"] = len(ctl)
     cov["negative_controls_with_cycle_detected"] = sum(1 for c in ctl if c["cycle"])
     cov["rejections_attributed_to_other_properties"] = sum(1 for x in rej if set(x["clauses"]) == {"RaisedIffIllFormed"})
-    cov["traces_validated_against_impl"] = len(cases)
-    cov["states"] = r.distinct
-    cov["transitions"] = r.generated
+    ncond, rc = run_cond(rep, 1200 if thorough else 120)
+    cov["traces_validated_against_impl"] = len(cases) + ncond
+    cov["states"] = r.distinct + rc.distinct
+    cov["transitions"] = r.generated + rc.generated
     cov["model_orders_checked"] = sum(a.get("orders", 0) for a in wf)
-    cov["evaluations"] = len(cases)
+    cov["evaluations"] = len(cases) + ncond
     cov["distinct_nontrivial"] = with_dep
     cov["rule"] = ("random designs whose readiness reads run(a) of a body declared earlier (nesting / schedule_before), built with "
                    "the real API and lowered to Amaranth's netlist (bit-level CombinationalCycle check); TLC checks for every "
